@@ -378,12 +378,16 @@ impl CodegenContext {
     }
 
     /// Forgets the symbols that the pass that just ended did not define (anymore), so they are not mistaken for the value
-    /// that something further down had in the previous pass.
-    fn drop_stale_symbols(&mut self) {
+    /// that something further down had in the previous pass. Before a new pass the variables go as well: a variable has
+    /// the value it was given last, in source order, so what the previous pass left behind is never the right value.
+    fn drop_stale_symbols(&mut self, drop_variables: bool) {
         let stale = self
             .symbols
             .indices()
-            .filter(|nx| matches!(self.symbols.try_get(*nx), Some(symbol) if symbol.pass_idx < self.pass_idx))
+            .filter(|nx| {
+                matches!(self.symbols.try_get(*nx), Some(symbol) if symbol.pass_idx < self.pass_idx
+                    || (drop_variables && symbol.ty == SymbolType::Variable))
+            })
             .collect_vec();
         for nx in stale {
             self.symbols.update_data(nx, None);
@@ -407,7 +411,7 @@ impl CodegenContext {
     }
 
     fn next_pass(&mut self) {
-        self.drop_stale_symbols();
+        self.drop_stale_symbols(true);
         self.pass_idx += 1;
         self.macro_invocations.clear();
         self.macro_depth = 0;
@@ -2028,7 +2032,7 @@ pub fn codegen(
     }
 
     // We're done!
-    ctx.drop_stale_symbols();
+    ctx.drop_stale_symbols(false);
     if let Err(e) = ctx.finalize() {
         errors.extend(e);
     }
